@@ -11,30 +11,43 @@ theorem Word.kind {cx : Ctx} {m : Bool} {k : UInt8} {txt val : Bytes} (h : Word 
     k = kW ∨ k = kQ := by
   cases h <;> simp
 
-/-- `key:value` with literal words is one leaf -/
-theorem matchF_term (cx : Ctx) (f : Nat) {k1 k2 : UInt8} {kt kv vt vv : Bytes}
-    (hk : Word cx false k1 kt kv) (hv : Word cx true k2 vt vv) (tail : Bytes) (htail : Delim cx tail) (e : ErrSt) :
-    matchF cx (f + 1) (kt ++ cColon :: (vt ++ tail)) e =
-      ⟨.lit kv vv (offOf cx (kt ++ cColon :: (vt ++ tail))), tail, e⟩ := by
-  have h1 := next_word cx false hk (cColon :: (vt ++ tail)) (delim_colon cx _) e
-  have h2 := next_op cx false cColon (vt ++ tail) e (by decide)
-  have h3 := next_word cx true hv tail htail e
+theorem leaf_of_kind (kv : Bytes) (v : SV) (off : Int) (o : Int) (k : UInt8) (hk : (k == kR) = v.re) :
+    mkMatch off kv ⟨k, o, v.val⟩ = leafSV kv v off := by
+  unfold mkMatch leafSV
+  simp only [hk]
+
+theorem okV_isValue {cx : Ctx} {k : UInt8} {txt tok : Bytes} (h : Val cx k txt tok) : isValue k = true := by
+  rcases h.kind with rfl | rfl | rfl <;> decide
+
+/-- `key:value` (word or regular expression) is one leaf -/
+theorem matchF_term (cx : Ctx) (f : Nat) {k1 : UInt8} {kt kv : Bytes}
+    (hk : Word cx false k1 kt kv) (v : SV) (hv : okV cx v) (tail : Bytes) (htail : Delim cx tail) (e : ErrSt) :
+    matchF cx (f + 1) (kt ++ cColon :: (v.txt ++ tail)) e =
+      ⟨leafSV kv v (offOf cx (kt ++ cColon :: (v.txt ++ tail))), tail, e⟩ := by
+  obtain ⟨k2, hval, hflag⟩ := hv
+  have h1 := next_word cx false hk (cColon :: (v.txt ++ tail)) (delim_colon cx _) e
+  have h2 := next_op cx false cColon (v.txt ++ tail) e (by decide)
+  have h3 := next_val cx hval tail htail e
+  have hiv := okV_isValue hval
   rw [matchF]
-  simp only [h1, mkTok, h2, h3]
-  rcases hk.kind with rfl | rfl <;> rcases hv.kind with rfl | rfl <;>
-    simp [isWord, isValue, mkMatch, kW, kQ, kR, cLP, cDash, cStar, cColon]
+  simp only [h1, mkTok, h2, h3, hiv, if_true]
+  rcases hk.kind with rfl | rfl <;>
+    (simp (config := { decide := true }) only [if_true, if_false]
+     rw [leaf_of_kind kv v _ _ k2 hflag])
 
 theorem listLoop_space (cx : Ctx) (off : Int) (key : Bytes) (f : Nat) (terms : List Filter) (q : Bytes) (e : ErrSt) :
     listLoop cx off key (f + 1) terms (0x20 :: q) e = listLoop cx off key (f + 1) terms q e := by
   rw [listLoop, listLoop, next_space]
 
-theorem length_le_renderVs (cx : Ctx) : ∀ (vs : List (Bytes × Bytes)),
-    (∀ p, p ∈ vs → ∃ k, Word cx true k p.1 p.2) → vs.length ≤ (renderVs vs).length
+theorem okV_ne_nil {cx : Ctx} {v : SV} (h : okV cx v) : v.txt ≠ [] := by
+  obtain ⟨k, hv, _⟩ := h; exact hv.ne_nil
+
+theorem length_le_renderVs (cx : Ctx) : ∀ (vs : List SV),
+    (∀ p, p ∈ vs → okV cx p) → vs.length ≤ (renderVs vs).length
   | [], _ => by simp
   | [p], h => by
-    obtain ⟨k, hw⟩ := h p (by simp)
-    have := hw.ne_nil
-    cases hp : p.1 with
+    have := okV_ne_nil (h p (by simp))
+    cases hp : p.txt with
     | nil => exact absurd hp this
     | cons a b => simp [renderVs, hp]
   | p :: q :: r, h => by
@@ -42,48 +55,54 @@ theorem length_le_renderVs (cx : Ctx) : ∀ (vs : List (Bytes × Bytes)),
     simp only [renderVs, List.length_cons, List.length_append] at ih ⊢
     omega
 
-/-- the value-list loop on `a₁ OR … OR aₙ)` -/
+/-- the value-list loop on `a₁ OR … OR aₙ)` (words and regular expressions) -/
 theorem listLoop_words (cx : Ctx) (off : Int) (key : Bytes) (tail : Bytes) (e : ErrSt) :
-    ∀ (vs : List (Bytes × Bytes)), vs ≠ [] → (∀ p, p ∈ vs → ∃ k, Word cx true k p.1 p.2) →
+    ∀ (vs : List SV), vs ≠ [] → (∀ p, p ∈ vs → okV cx p) →
     ∀ (F : Nat) (terms : List Filter), vs.length ≤ F →
       listLoop cx off key F terms (renderVs vs ++ cRP :: tail) e =
-        ⟨.op .or (terms ++ vs.map (fun p => .lit key p.2 off)), tail, e⟩
+        ⟨.op .or (terms ++ vs.map (fun p => leafSV key p off)), tail, e⟩
   | [], h, _, _, _, _ => absurd rfl h
   | [p], _, hw, F, terms, hF => by
-    obtain ⟨k, hp⟩ := hw p (by simp)
+    obtain ⟨k, hp, hflag⟩ := hw p (by simp)
     match F, hF with
     | F + 1, _ =>
-      have h1 := next_word cx true hp (cRP :: tail) (delim_rp cx tail) e
+      have h1 := next_val cx hp (cRP :: tail) (delim_rp cx tail) e
       have h2 := next_op cx true cRP tail e (by decide)
+      have hiv := okV_isValue hp
       rw [listLoop]
-      simp only [renderVs, h1, mkTok, h2]
-      rcases hp.kind with rfl | rfl <;> simp [isValue, mkMatch, kW, kQ, kR, cRP]
+      simp only [renderVs, h1, mkTok, h2, hiv, Bool.not_true, Bool.false_eq_true, if_false]
+      simp (config := { decide := true }) only [if_true]
+      rw [leaf_of_kind key p _ _ k hflag]
+      simp
   | p :: q :: r, _, hw, F, terms, hF => by
-    obtain ⟨k, hp⟩ := hw p (by simp)
+    obtain ⟨k, hp, hflag⟩ := hw p (by simp)
     match F, hF with
     | F + 2, hF =>
       have hshape : renderVs (p :: q :: r) ++ cRP :: tail =
-          p.1 ++ (0x20 :: (wOR ++ 0x20 :: (renderVs (q :: r) ++ cRP :: tail))) := by
+          p.txt ++ (0x20 :: (wOR ++ 0x20 :: (renderVs (q :: r) ++ cRP :: tail))) := by
         simp [renderVs]
-      have h1 := next_word cx true hp (0x20 :: (wOR ++ 0x20 :: (renderVs (q :: r) ++ cRP :: tail)))
+      have h1 := next_val cx hp (0x20 :: (wOR ++ 0x20 :: (renderVs (q :: r) ++ cRP :: tail)))
         (delim_space cx _) e
       have h2 : next cx true (0x20 :: (wOR ++ 0x20 :: (renderVs (q :: r) ++ cRP :: tail))) e =
           mkTok cx (wOR ++ 0x20 :: (renderVs (q :: r) ++ cRP :: tail)) kO wOR
             (0x20 :: (renderVs (q :: r) ++ cRP :: tail)) e := by
         rw [next_space, next_OR cx true _ (delim_space cx _) e]
       have ih := listLoop_words cx off key tail e (q :: r) (by simp) (fun x hx => hw x (by simp [hx]))
-        (F + 1) (terms ++ [.lit key p.2 off]) (by simp at hF ⊢; omega)
+        (F + 1) (terms ++ [leafSV key p off]) (by simp at hF ⊢; omega)
       have hne : (kO == cRP) = false := by decide
+      have hiv := okV_isValue hp
       rw [hshape, listLoop]
-      simp only [h1, mkTok, h2, hne, listLoop_space]
-      rcases hp.kind with rfl | rfl <;> (simp [isValue, mkMatch, kW, kQ, kR]; rw [ih]; simp)
+      simp only [h1, mkTok, h2, hne, listLoop_space, hiv, Bool.not_true, Bool.false_eq_true, if_false]
+      simp (config := { decide := true }) only [if_true]
+      rw [leaf_of_kind key p _ _ k hflag, ih]
+      simp
 
 /-- `key:(a₁ OR … OR aₙ)` is the disjunction node over the leaves `key:aᵢ` -/
 theorem matchF_list (cx : Ctx) (f : Nat) {k1 : UInt8} {kt kv : Bytes} (hk : Word cx false k1 kt kv)
-    (vs : List (Bytes × Bytes)) (hne : vs ≠ []) (hw : ∀ p, p ∈ vs → ∃ k, Word cx true k p.1 p.2)
+    (vs : List SV) (hne : vs ≠ []) (hw : ∀ p, p ∈ vs → okV cx p)
     (tail : Bytes) (e : ErrSt) :
     matchF cx (f + 1) (kt ++ cColon :: cLP :: (renderVs vs ++ cRP :: tail)) e =
-      ⟨.op .or (vs.map (fun p => .lit kv p.2 (offOf cx (kt ++ cColon :: cLP :: (renderVs vs ++ cRP :: tail))))),
+      ⟨.op .or (vs.map (fun p => leafSV kv p (offOf cx (kt ++ cColon :: cLP :: (renderVs vs ++ cRP :: tail))))),
        tail, e⟩ := by
   have h1 := next_word cx false hk (cColon :: cLP :: (renderVs vs ++ cRP :: tail)) (delim_colon cx _) e
   have h2 := next_op cx false cColon (cLP :: (renderVs vs ++ cRP :: tail)) e (by decide)
@@ -97,7 +116,6 @@ theorem matchF_list (cx : Ctx) (f : Nat) {k1 : UInt8} {kt kv : Bytes} (hk : Word
   rcases hk.kind with rfl | rfl <;>
     (simp (config := { decide := true }) only [if_true, if_false]
      exact hl)
-
 
 /-! ### spaces in front -/
 
@@ -166,7 +184,7 @@ theorem first_tok (cx : Ctx) (s : S) (hok : okS cx s) (rest : Bytes) (e : ErrSt)
   | star =>
     rw [render, List.cons_append]
     exact ⟨_, _, _, next_op cx false cStar _ e (by decide), by decide, by decide⟩
-  | term kt kv vt vv =>
+  | term kt kv v =>
     rw [okS] at hok
     obtain ⟨⟨k, hk⟩, _⟩ := hok
     rw [render, List.append_assoc, List.cons_append]
